@@ -975,6 +975,12 @@ class Frame(object):
                     for x, y in zip(a.bits, b.bits):
                         eq = b_and(eq, x if y else b_not(x))
                     return BV([eq if op == "==" else b_not(eq)])
+                if ww <= 64 and not any(has_x(x) for x in a.bits + b.bits):
+                    # bit-wise equality of two symbolic words
+                    eq = 1
+                    for x, y in zip(a.bits, b.bits):
+                        eq = b_and(eq, b_not(b_xor(x, y)))
+                    return BV([eq if op == "==" else b_not(eq)])
             if not sg or (a.bits[-1] == 0 and b.bits[-1] == 0):
                 amin, amax, bmin, bmax = a.minv(), a.maxv(), b.minv(), b.maxv()
                 dec = None
